@@ -146,6 +146,7 @@ SHAPES = {
     "power-or-root": lambda s: re.search(r"\^|\*\*|[⁰¹²³⁴⁵⁶⁷⁸⁹]|sqrt|cbrt|sqr", s) is not None,
     "bang-run-multiple-of-65536": lambda s: any(n >= 65536 and n % 65536 == 0 for n in bang_runs(s)),
     "nesting-at-least-1000": lambda s: max_nesting(s) >= 1000,
+    "question-mark-in-string-interpolation": lambda s: re.search(r'"[^"]*\{[^}"]*\?', s) is not None,
 }
 
 
